@@ -653,21 +653,43 @@ fn server_engine(rep: &Report, seed: u64, tier: Tier) {
     let case = |i: usize, timeout_s: u64| {
         let mut rng = Rng::new(seed).fork(0x1510 + i as u64);
         let comp = *rng.pick(&[(0u32, 0u32), (3, 4), (2, 3)]);
-        let kind = rng.below(3);
-        let (_src, _d, _b, valid) = base_archive(&mut rng, comp, kind);
+        // One case in fifteen: a clone that needs two separate chunk-data requests (a seed
+        // holds a chunk in between) from a server whose answer to the first of them never
+        // ends — the requested bytes are followed by junk for as long as the client listens.
+        let endless = i % 15 == 7;
+        let kind = if endless { 0 } else { rng.below(3) };
+        let comp = if endless { (0u32, 0u32) } else { comp };
+        let (src, d0, _b, valid) = base_archive(&mut rng, comp, kind);
         let target = rng.below(4);
         let how = if rng.chance(1, 2) { rng.below(13) } else { 13 + rng.below(hlies.len() as u64) };
+        // fixed-size chunks of n bytes: the seed holds the second one
+        let endless_seed: Option<Vec<u8>> = if endless {
+            let n = d0.params.as_ref().map(|p| p.max as usize).unwrap_or(0);
+            if n > 0 && src.len() >= 3 * n { Some(src[n..2 * n].to_vec()) } else { None }
+        } else {
+            None
+        };
+        let endless = endless_seed.is_some();
+        let cdo = crate::refimpl::codec::parse_archive(&valid).map(|p| p.chunk_data_offset).unwrap_or(u64::MAX);
         // A third of the servers keep lying from that request on (a truncated file on a
         // static server, a broken proxy): the client must give up, not ask forever.
         let persistent = rng.chance(1, 3);
         let lie_seed = rng.next_u64();
         let names = ["extra bytes", "long content-length", "short content-length", "wrong status + html", "empty body", "status 200 whole file", "random bytes longer than asked", "416 empty body", "half of the requested bytes", "connection closed without a reply", "a reply that is not HTTP", "content-length 2^62", "content-length 2^40"];
-        let lie_name = if how < 13 { names[how as usize].to_string() } else { format!("headers: {}", hlies[how as usize - 13].0) };
+        let lie_name = if endless { "first of two chunk-data responses never ends".to_string() } else if how < 13 { names[how as usize].to_string() } else { format!("headers: {}", hlies[how as usize - 13].0) };
         let desc = format!("request#{}{}:{}", target, if persistent { "+" } else { "" }, lie_name);
         let hl = hlies.clone();
+        let endless_fired = Arc::new(std::sync::atomic::AtomicBool::new(false));
         let server = Server::start(
             Arc::new(valid.clone()),
             Arc::new(move |req, f| {
+                if endless {
+                    // the first request for chunk data gets the endless answer, everything else is honest
+                    return match req.range {
+                        Some((a, _)) if a >= cdo && !endless_fired.swap(true, std::sync::atomic::Ordering::SeqCst) => Action::Endless,
+                        _ => Action::Full,
+                    };
+                }
                 let chain = how >= 13 && hl[how as usize - 13].0.starts_with("endless chain");
                 if req.n < target || (req.n > target && !persistent && !chain) {
                     return Action::Full;
@@ -707,7 +729,11 @@ fn server_engine(rep: &Report, seed: u64, tier: Tier) {
         );
         let dir = scn::case_dir("C15", 1000 + i);
         let out = dir.join("o.bin");
-        let args = if i % 3 == 0 {
+        let args = if let Some(sd) = &endless_seed {
+            let sp = dir.join("seed.bin");
+            std::fs::write(&sp, sd).unwrap();
+            scn::clone_args(&CloneSpec { archive: server.url(), output: out, seeds: vec![sp], ..Default::default() })
+        } else if i % 3 == 0 {
             vec![s("info"), server.url()]
         } else {
             scn::clone_args(&CloneSpec { archive: server.url(), output: out, retries: if i % 2 == 0 { Some(2) } else { None }, buffered: [None, Some(1), Some(4)][(i / 6) % 3], ..Default::default() })
